@@ -28,6 +28,10 @@ def mask_image_source_from_coverage(img_source, bbox, bbox_srs, coverage,
         image_opts = img_source.image_opts
     img = img_source.as_image()
     img = mask_image(img, bbox, bbox_srs, coverage)
+    if image_opts.transparent:
+        # img is already RGBA and cleared outside of the coverage,
+        # pasting it with itself as mask would apply its alpha twice
+        return ImageSource(img, image_opts=image_opts)
     result = create_image(img.size, image_opts)
     result.paste(img, (0, 0), img)
     return ImageSource(result, image_opts=image_opts)
